@@ -758,6 +758,7 @@ func runC06(tier string, seed uint64, o *Out) error {
 	}
 	c06Diff(tier, r, o)
 	c06Malformed(tier, r, o)
+	c06CasePairs(tier, NewRNG(seed*1000003+606), o) // far-away generator state: independent across seeds
 	return nil
 }
 
